@@ -38,11 +38,12 @@
     tie to the tables and dispatch of /repo                       all_records_wf, dispatch_as_modelled
     "the whole model": read (write d) = canon d                    read_write_whole_partial (induction over the section list;
                                                                  kinds ROCKS PARAM MOMOP START NOVER ELEME CONNE GENER LINEQ SOLVR
-                                                                 RPCAP TIMES SELEC INCON INDOM, TOUGH2
+                                                                 RPCAP TIMES SELEC INCON INDOM MULTI DIFFU FOFT GOFT COFT,
+                                                                 TOUGH2
                                                                  flavour, in-file mesh), whole_sections_preserved,
-                                                                 write_read_write_whole_partial
+                                                                 write_read_write_whole_partial; field by field: whole_fields
   Not proved as theorems (modelled and checked by the correspondence and the oracle only): the
-  composition into `read (write d) = canon d` for the other eight section kinds, AUTOUGH2 objects and the
+  composition into `read (write d) = canon d` for SIMUL, MESHM and SHORT, AUTOUGH2 objects and the
   auxiliary files; the binary MESHA/MESHB pair; idempotence of `canonV` on reals (C02's domain).
 -/
 import PyTough.Proofs.T2WholeObject
@@ -437,12 +438,12 @@ abbrev canonWhole (d d' : T2Data) : T2Data :=
     continuation that begins with a keyword line, returns its canonical value and leaves the continuation; PARAM
     hands the keyword line it read ahead back to the loop; ENDCY/ENDFI stops it).
     `_partial`: the object's sections are restricted to the kinds in `wholeKinds` (ROCKS PARAM MOMOP START NOVER
-    ELEME CONNE GENER LINEQ SOLVR RPCAP TIMES SELEC INCON INDOM — decidable, `hkinds`), to the TOUGH2 flavour without SIMUL (`hsim`), the mesh in the file
+    ELEME CONNE GENER LINEQ SOLVR RPCAP TIMES SELEC INCON INDOM MULTI DIFFU FOFT GOFT COFT — decidable, `hkinds`), to the TOUGH2 flavour without SIMUL (`hsim`), the mesh in the file
     (`hcfg`) and no extra-precision companion (`hxp`).  `hgood` collects the side conditions of the per-section
     theorems, each on the reader's object at the moment the section is met (so blocks are resolved against the
-    rock types *read*, connections against the blocks *read*).  Missing: the other eight kinds (their
-    `section_roundtrip_…` theorems have the same shape; SHORT/FOFT/COFT/GOFT/DIFFU depend on earlier sections,
-    MULTI on `eos` stripping), AUTOUGH2 objects, the auxiliary files. -/
+    rock types *read*, connections against the blocks *read*).  COFT only while the reader has no
+    grid yet (its section theorem is for names, not resolved connections).  Missing: SIMUL (AUTOUGH2 objects), MESHM
+    (its keyword line is `MESHMAKER`, not the five-letter keyword), SHORT; the auxiliary files. -/
 theorem read_write_whole_partial (d : T2Data) (cfg : WriteCfg) (d' : T2Data) (f : Files) (hw : d.write cfg = .ok (d', f))
     (hsim : d.simulator = []) (hxp : d.extraPrecision = []) (hcfg : cfg.mesh = .infile) (hend : IsEnd d.endKeyword)
     (hkinds : d'.sections.all (wholeKinds.contains ·) = true)
@@ -456,6 +457,35 @@ theorem read_write_whole_partial (d : T2Data) (cfg : WriteCfg) (d' : T2Data) (f 
 theorem whole_sections_preserved (d d' : T2Data) :
     (canonWhole d d').sections = d'.sections ∧ (canonWhole d d').endKeyword = d.endKeyword :=
   ⟨by simpa [startObj, T2Data.empty] using canonFrom_sections (stepCanon d') (stepCanon_sections d') d'.sections (startObj d), rfl⟩
+
+/-- **the whole model, field by field**: in the object read back, the title is the written one (cut to 80 columns);
+    the rock types, blocks, connections and generators are the canonical lists (each value as its field carries it,
+    names through the (A3,I2) cycle) of the written object's lists when their section was written, and empty
+    otherwise; the MOP options, default initial conditions and MOMOP options are the written ones. -/
+theorem whole_fields (d d' : T2Data) :
+    (canonWhole d d').title = canonTitle d ∧
+    (canonWhole d d').rocks = (if c!"ROCKS" ∈ d'.sections then canonRocks d'.rocks else []) ∧
+    (canonWhole d d').blocks = (if c!"ELEME" ∈ d'.sections then canonBlocks d'.blocks else []) ∧
+    (canonWhole d d').conns = (if c!"CONNE" ∈ d'.sections then canonConns d'.conns else []) ∧
+    (canonWhole d d').gens = (if c!"GENER" ∈ d'.sections then canonGeners d'.gens else []) ∧
+    (c!"PARAM" ∈ d'.sections → (canonWhole d d').option = d'.option ∧
+       (canonWhole d d').defaultIncons = d'.defaultIncons.map (canonV (mf c!"default_incons" 0))) ∧
+    (c!"MOMOP" ∈ d'.sections → (canonWhole d d').moreOption = d'.moreOption) := by
+  refine ⟨?_, ?_, ?_, ?_, ?_, ?_, ?_⟩
+  · exact canonFrom_keep T2Data.title _ (fun _ _ => rfl) (stepCanon_title d') d'.sections (startObj d)
+  · exact canonFrom_proj T2Data.rocks _ c!"ROCKS" _ (fun _ _ => rfl) (stepCanon_rocks d') d'.sections (startObj d)
+  · exact canonFrom_proj T2Data.blocks _ c!"ELEME" _ (fun _ _ => rfl) (stepCanon_blocks d') d'.sections (startObj d)
+  · exact canonFrom_proj T2Data.conns _ c!"CONNE" _ (fun _ _ => rfl) (stepCanon_conns d') d'.sections (startObj d)
+  · exact canonFrom_proj T2Data.gens _ c!"GENER" _ (fun _ _ => rfl) (stepCanon_gens d') d'.sections (startObj d)
+  · intro h
+    have h1 := canonFrom_proj T2Data.option _ c!"PARAM" _ (fun _ _ => rfl) (stepCanon_option d') d'.sections (startObj d)
+    have h2 := canonFrom_proj T2Data.defaultIncons _ c!"PARAM" _ (fun _ _ => rfl) (stepCanon_defaultIncons d') d'.sections (startObj d)
+    rw [if_pos h] at h1 h2
+    exact ⟨h1, h2⟩
+  · intro h
+    have h1 := canonFrom_proj T2Data.moreOption _ c!"MOMOP" _ (fun _ _ => rfl) (stepCanon_moreOption d') d'.sections (startObj d)
+    rw [if_pos h] at h1
+    exact h1
 
 /-- **the second write, for whole objects** (corollary): writing what was read from the first file is writing the
     canonical object — `write (read (write d)) = write (canon d)`, with any arguments of the second `write` -/
